@@ -19,7 +19,8 @@ LEAN_TARGETS = ["Strengths.Props.C17"]
 PROP_FILES = ["Strengths/Props/C17.lean"]
 GEN_GROUPS = ["IndexPy", "TrajPy", "Units"]
 RULE = ("trajectories: nsamples 1..6 x nspecies 1..4 x (grid w,h,d 1..3 | graph 1..6 nodes), data = distinct known numbers, "
-        "times non-decreasing dyadic (mostly strictly increasing, some with repeated times), random time / quantity units; "
+        "times non-decreasing dyadic (mostly strictly increasing, some with repeated times, some 'bursts': large offset + tiny strictly "
+        "increasing steps with relative spacing below 1e-9), random time / quantity units; "
         "every (species, sample, cell) triple read through the four accessors with rotating argument forms "
         "(label / index / float index / object; index / tuple / list / coordinate object / numpy int); every species x sample state, "
         "whole states, merged trajectories; lookups: before first, after last, on every sample, exact midpoints, random in-between, "
@@ -78,9 +79,19 @@ def make_system(rng, kind, shape, ns, usys, labels=None):
 def gen_times(rng, n):
     """non-decreasing dyadic times; returns (times, has_duplicates)"""
     t = Fraction(rng.randint(-8, 16), 4)
-    out = [t]
     dup = False
     style = rng.random()
+    if style > 0.88:
+        # a long equilibration followed by a finely sampled burst: large offset, tiny increments (relative spacing below 1e-9),
+        # still strictly increasing and exact as doubles (2^20 + k * 2^-11, or 5 * 2^30 + k * 2^-1)
+        base, unit = rng.choice([(Fraction(2 ** 20), Fraction(1, 2 ** 11)), (Fraction(5 * 2 ** 30), Fraction(1, 2))])
+        out = [Fraction(rng.randint(0, 8), 4)] if (n > 2 and rng.random() < 0.5) else []
+        t = base + unit * rng.randint(0, 3)
+        while len(out) < n:
+            out.append(t)
+            t += unit * rng.randint(1, 3)
+        return out, False
+    out = [t]
     for _ in range(n - 1):
         if style < 0.25 and rng.random() < 0.4:
             step = Fraction(0)
@@ -542,6 +553,8 @@ def run(ctx):
         ctx.count("space_" + c["kind"])
         ctx.count("nsamples_%d" % c["N"])
         ctx.count("times_repeated" if c["dup"] else "times_strict")
+        if any(0 < (b - a) <= abs(b) / 10 ** 9 for a, b in zip(c["ts"], c["ts"][1:])):
+            ctx.count("times_burst_relative_spacing_below_1e-9")
         cases.append(c)
     sims = simulated_cases(ctx, rng, ctx.n(8, 40))
     for c in sims:
